@@ -40,7 +40,7 @@ Proof.
   rewrite <- flat_map_emitted.
   apply (foldM_rel _ (fun acc : list mnode * scope * req * list fdesc * list fdesc => map src_of (fst (fst (fst (fst acc))))) emitted) in H2;
     [exact H2|].
-  clear. intros [[[[ms s] rq] fs] sfs] u [[[[ms' s'] rq'] fs'] sfs'] Hu. cbn [fst]. unfold emitted.
+  clear. intros [[[[ms s] rq] fs] sfs] u [[[[ms' s'] rq'] fs'] sfs'] Hu. cbn [fst]. unfold emitted. unfold compile_step in Hu.
   destruct (is_arg p u) eqn:Ea; [inversion Hu; subst; now rewrite app_nil_r|].
   destruct u as [n|g'].
   - apply bind_ok in Hu. destruct Hu as [[rqm fsm] [_ Hu]].
@@ -103,7 +103,7 @@ Proof.
   cbn [srcs_graph spec_srcs].
   apply (foldM_rel _ (fun acc : list mnode * scope * req * list fdesc * list fdesc => flat_map srcs_node (fst (fst (fst (fst acc)))))
                    (node_spec (spec_srcs f))) in H2; [exact H2|].
-  clear - IH. intros [[[[ms s] rq] fs] sfs] u [[[[ms' s'] rq'] fs'] sfs'] Hu. cbn [fst]. unfold node_spec, node_subs.
+  clear - IH. intros [[[[ms s] rq] fs] sfs] u [[[[ms' s'] rq'] fs'] sfs'] Hu. cbn [fst]. unfold node_spec, node_subs. unfold compile_step in Hu.
   destruct (is_arg p u) eqn:Ea; [inversion Hu; subst; now rewrite app_nil_r|].
   assert (Hsg : forall (l : list (String.string * attrv)) a0 al sz rqz fz prefix0,
             foldM (fun (acc : list (String.string * option mgraph) * scope * req * list fdesc) (ka : String.string * attrv) =>
